@@ -5,6 +5,7 @@ Import ListNotations.
 From Coquelicot Require Import Coquelicot.
 Require Import DTS.Base.WLS DTS.Base.Quad DTS.Model.Layout DTS.Gen.GenVarTermsQ DTS.Proofs.VarPropP.
 Require DTS.Gen.GenVarTermsR DTS.Proofs.DerivP.
+Require DTS.Base.Dyadic DTS.Corr.VarC DTS.Proofs.VarCP.
 Local Open Scope string_scope.
 
 (* T21 (over Q, for ANY number of acting splices and any symmetric covariance): the term lists of the source sum to
@@ -36,6 +37,18 @@ Theorem C05_single_ended_fixed_alpha_var_is_propagation cov (cov_sym : forall a 
   (total (se_var_fw_dict_terms v) ==
    se_T_st_fw v * se_T_st_fw v * v "s_st" + se_T_ast_fw v * se_T_ast_fw v * v "s_ast" + quad cov (J_se_fixed i t act v))%Q.
 Proof. exact (var_se_fixed_is_propagation cov cov_sym i t act v). Qed.
+
+(* the conformance judge evaluated on the reported arrays: a `true` verdict bounds, over Q, the distance between the reported variance
+   (cleared of its denominators gamma^2 st^2 ast^2) and T^4 (s_st ast^2 + s_ast st^2) + st^2 ast^2 J'CJ with J = gamma dT/dp *)
+Theorem C05_variance_test_sound e gamma T st ast sv av var J cov :
+  DTS.Corr.VarC.var_ok e gamma T st ast sv av var J cov = true ->
+  let D2Q := DTS.Base.Dyadic.D2Q in
+  let g := D2Q gamma in let t := D2Q T in let s := D2Q st in let a := D2Q ast in
+  let lhs := (g * g * (s * s * (a * a)) * D2Q var)%Q in
+  let inten := (t * t * (t * t) * (D2Q sv * (a * a) + D2Q av * (s * s)))%Q in
+  (Qabs.Qabs (lhs - (inten + s * s * (a * a) * DTS.Proofs.VarCP.quad2q J J cov)) <=
+    Qpower 2 e * (Qabs.Qabs inten + s * s * (a * a) * DTS.Proofs.VarCP.aquad2q J J cov + Qabs.Qabs lhs))%Q.
+Proof. exact (DTS.Proofs.VarCP.var_ok_sound e gamma T st ast sv av var J cov). Qed.
 
 (* T20 (over R, Coquelicot): the generated sensitivities are the partial derivatives of the temperature equation with
    respect to gamma, both intensities, df/c, alpha and the total splice loss - forward, backward, and d/d(dalpha) *)
@@ -81,5 +94,6 @@ End T20.
 
 Print Assumptions C05_tmpf_var_is_propagation. Print Assumptions C05_tmpb_var_is_propagation. Print Assumptions C05_tmpw_var_is_propagation.
 Print Assumptions C05_single_ended_var_is_propagation. Print Assumptions C05_single_ended_fixed_alpha_var_is_propagation.
+Print Assumptions C05_variance_test_sound.
 Print Assumptions C05_forward_sensitivities_are_derivatives. Print Assumptions C05_backward_sensitivities_are_derivatives.
 Print Assumptions C05_single_ended_sensitivities_are_derivatives. Print Assumptions C05_dalpha_sensitivity_is_derivative.
